@@ -18,34 +18,34 @@ type fsSink struct {
 
 // One line of reason each: documented behaviour of package os / x/sys/unix.
 var fsSinks = map[string]fsSink{
-	"os.Mkdir":       {[]int{0}, "mkdir", false},   // mkdir(2) fails with EEXIST on a link
-	"os.MkdirAll":    {[]int{0}, "mkdir", true},    // returns nil when path (through a link) is a directory
-	"os.Create":      {[]int{0}, "create", true},   // open(O_CREAT|O_TRUNC) follows links
-	"os.OpenFile":    {[]int{0}, "create", true},   // unless O_EXCL/O_NOFOLLOW, checked at the site
-	"os.Symlink":     {[]int{1}, "symlink", false}, // symlink(2) fails with EEXIST
-	"os.Link":        {[]int{0, 1}, "link", false},
-	"os.Rename":      {[]int{0, 1}, "rename", false},
-	"os.Remove":      {[]int{0}, "remove", false}, // unlink/rmdir act on the link itself
-	"os.RemoveAll":   {[]int{0}, "remove", false},
-	"os.Chmod":       {[]int{0}, "chmod", true},
-	"os.Chown":       {[]int{0}, "chown", true},
-	"os.Lchown":      {[]int{0}, "chown", false},
-	"os.Chtimes":     {[]int{0}, "chtimes", true},
-	"os.WriteFile":   {[]int{0}, "write", true},
-	"os.Truncate":    {[]int{0}, "write", true},
-	"os.MkdirTemp":   {[]int{0}, "temp", false},
-	"os.CreateTemp":  {[]int{0}, "temp", false},
-	"io/ioutil.WriteFile": {[]int{0}, "write", true},
-	"io/ioutil.TempDir":   {[]int{0}, "temp", false},
-	"io/ioutil.TempFile":  {[]int{0}, "temp", false},
-	"golang.org/x/sys/unix.Lutimes":   {[]int{0}, "chtimes", false},
-	"golang.org/x/sys/unix.Utimes":    {[]int{0}, "chtimes", true},
-	"golang.org/x/sys/unix.Lchown":    {[]int{0}, "chown", false},
-	"golang.org/x/sys/unix.Chmod":     {[]int{0}, "chmod", true},
-	"golang.org/x/sys/unix.Unlink":    {[]int{0}, "remove", false},
-	"golang.org/x/sys/unix.Symlink":   {[]int{1}, "symlink", false},
-	"golang.org/x/sys/unix.Mkdir":     {[]int{0}, "mkdir", false},
-	"golang.org/x/sys/unix.Rename":    {[]int{0, 1}, "rename", false},
+	"os.Mkdir":                           {[]int{0}, "mkdir", false},   // mkdir(2) fails with EEXIST on a link
+	"os.MkdirAll":                        {[]int{0}, "mkdir", true},    // returns nil when path (through a link) is a directory
+	"os.Create":                          {[]int{0}, "create", true},   // open(O_CREAT|O_TRUNC) follows links
+	"os.OpenFile":                        {[]int{0}, "create", true},   // unless O_EXCL/O_NOFOLLOW, checked at the site
+	"os.Symlink":                         {[]int{1}, "symlink", false}, // symlink(2) fails with EEXIST
+	"os.Link":                            {[]int{0, 1}, "link", false},
+	"os.Rename":                          {[]int{0, 1}, "rename", false},
+	"os.Remove":                          {[]int{0}, "remove", false}, // unlink/rmdir act on the link itself
+	"os.RemoveAll":                       {[]int{0}, "remove", false},
+	"os.Chmod":                           {[]int{0}, "chmod", true},
+	"os.Chown":                           {[]int{0}, "chown", true},
+	"os.Lchown":                          {[]int{0}, "chown", false},
+	"os.Chtimes":                         {[]int{0}, "chtimes", true},
+	"os.WriteFile":                       {[]int{0}, "write", true},
+	"os.Truncate":                        {[]int{0}, "write", true},
+	"os.MkdirTemp":                       {[]int{0}, "temp", false},
+	"os.CreateTemp":                      {[]int{0}, "temp", false},
+	"io/ioutil.WriteFile":                {[]int{0}, "write", true},
+	"io/ioutil.TempDir":                  {[]int{0}, "temp", false},
+	"io/ioutil.TempFile":                 {[]int{0}, "temp", false},
+	"golang.org/x/sys/unix.Lutimes":      {[]int{0}, "chtimes", false},
+	"golang.org/x/sys/unix.Utimes":       {[]int{0}, "chtimes", true},
+	"golang.org/x/sys/unix.Lchown":       {[]int{0}, "chown", false},
+	"golang.org/x/sys/unix.Chmod":        {[]int{0}, "chmod", true},
+	"golang.org/x/sys/unix.Unlink":       {[]int{0}, "remove", false},
+	"golang.org/x/sys/unix.Symlink":      {[]int{1}, "symlink", false},
+	"golang.org/x/sys/unix.Mkdir":        {[]int{0}, "mkdir", false},
+	"golang.org/x/sys/unix.Rename":       {[]int{0, 1}, "rename", false},
 	"golang.org/x/sys/unix.UtimesNanoAt": {[]int{1}, "chtimes", true},
 }
 
